@@ -52,17 +52,18 @@ PLAN["C03"] = dict(
 
 PLAN["C01"] = dict(
     level="exploration",
-    engines=["free-run + WGL per-key linearizability checker (native)", "the same recorder and checker on an un-instrumented build of flurry (no hooks, no delays)", "serial token-passing scheduler: seeded, replayable schedules of small programs + the same checker (native)"],
+    engines=["free-run + WGL per-key linearizability checker (native)", "the same recorder and checker on an un-instrumented build of flurry (no hooks, no delays)", "serial token-passing scheduler: seeded, replayable schedules of small programs + the same checker (native)", "per-thread gates: callers frozen after loading the table pointer, released two or three table generations later with a transfer frozen half way (native)"],
     assumptions=[
         "tickets from one relaxed fetch_add counter taken before the call and after the return give a real-time order",
         "sub-histories of more than 256 calls or 2^21 search states are counted as unchecked, never as violations",
         "preemption happens where the OS scheduler or an injected delay puts it; interleavings are sampled",
     ],
-    require={"key_histories_checked": 500, "contended_key_histories": 20, "rounds_with_resize": 5, "rounds_with_tree_conversion": 5},
+    require={"key_histories_checked": 500, "contended_key_histories": 20, "rounds_with_resize": 5, "rounds_with_tree_conversion": 5, "stale_scenarios_grower_frozen_mid_transfer": 100},
     jobs=lambda t: [
         J("freerun", "native", ["c01", "--rounds", q(t, 1200, 400000)], shards=q(t, 8, 12), budget_s=q(t, 35, 420), parallel=q(t, 8, 12)),
         J("serial", "native", ["c01", "--part", "serial", "--schedules", q(t, 6000, 4000000)], shards=q(t, 8, 16), budget_s=q(t, 30, 240), parallel=q(t, 8, 16)),
         J("plain", "plain", ["stress", "--oracle", "lin", "--rounds", q(t, 1500, 4000000)], shards=8, budget_s=q(t, 25, 240), parallel=8),
+        J("stale", "native", ["c01", "--part", "stale", "--scenarios", q(t, 6000, 4000000)], shards=8, budget_s=q(t, 20, 180), parallel=8),
     ],
 )
 
